@@ -21,7 +21,7 @@ RULE = ("states are drawings = sets of placed items on a lattice (canonical key:
         "(A) structure: every filling of the 4 edges of the 2x2 lattice with {nothing, wire, resistor in either direction, DC voltage "
         "source in either direction with either reversal flag} x ground positions (none, first and last touched point; thorough: every touched point), each built in canonical "
         "and reversed insertion order (and every adjacent swap for the ground-at-origin drawings), plus every 3x2-lattice drawing "
-        "with <= 3 edge items incl. a wire spanning two cells and one node label; (W) wire meshes: three fixed symbols, ground and label with every sequence (every insertion order) of up to 4 (thorough 5) wires out of 8 candidates that contain closed wire loops, a doubled wire and long wires drawn over two short ones; (B) kinds: every symbol kind of the statement x "
+        "with <= 3 edge items incl. a wire spanning two cells and one node label (a word, and the numerals '2' and '3' that collide with automatic node numbers); (W) wire meshes: three fixed symbols, ground and label with every sequence (every insertion order) of up to 4 (thorough 5) wires out of 8 candidates that contain closed wire loops, a doubled wire and long wires drawn over two short ones; (B) kinds: every symbol kind of the statement x "
         "both placement directions x all four rotations x reversal flag x degree/sine options in two one-loop contexts; (C) "
         "metamorphic generators on every (A) drawing with the ground at the origin: rotations by 90/180/270 degrees, two "
         "translations (one on a rounding boundary), two drawing units (thorough: three each and a combined one), every wire split in two, chained "
@@ -394,8 +394,10 @@ def run_a3(i, j, tier, res):
                 prog = base + [{"op": "ground", "p": list(g)}]
                 explore_drawing(prog, res, full=False, tier=tier)
                 if len(touched) > 1:
-                    prog2 = prog + [{"op": "label", "name": "A", "p": list(touched[-1])}]
-                    explore_drawing(prog2, res, full=False, tier=tier)
+                    # a label that is a word, and labels that look like the numbers the parser hands out to unlabelled nodes
+                    for nm in ("A", "2", "3"):
+                        prog2 = prog + [{"op": "label", "name": nm, "p": list(touched[-1])}]
+                        explore_drawing(prog2, res, full=False, tier=tier)
 
 
 # ------------------------------------------------------------------ (W) wire meshes: cycles, doubled and overlapping wires, every order
